@@ -15,6 +15,7 @@ import warnings
 
 from .. import core
 from .. import tlcpar
+from ..splitlib import deadline, Watchdog
 from ..util import CountingIter, exc_name
 
 NONE = -1000
@@ -25,6 +26,14 @@ FLOW_KINDS = ("list", "tuple", "range", "gen")
 
 def _py(x):
     return None if x == "None" else int(x)
+
+
+CAP = 5000
+
+
+def L(gen, cap=CAP):
+    """list(gen), but a broken element that never stops yielding cannot exhaust the memory."""
+    return list(itertools.islice(gen, cap))
 
 
 def make_flow(n, kind):
@@ -56,7 +65,7 @@ def replay_slice(ctx, rec, lena, idx=0):
     for args in arg_forms(a, b, s):
         try:
             el = lena.flow.Slice(*args)
-            out = list(el.run(iter(range(n))))
+            out = L(el.run(iter(range(n))))
         except Exception as exc:       # noqa
             out = "raised " + exc_name(exc)
         if out != expected:
@@ -71,9 +80,9 @@ def replay_slice(ctx, rec, lena, idx=0):
             try:
                 # the same element object is run a second time (RunIf, Split and users reuse elements):
                 # run() keeps no state between runs; the flow may also be a re-iterable container
-                out2 = list(el.run(iter(objs)))
+                out2 = L(el.run(iter(objs)))
                 same = len(out2) == len(expected) and all(x is objs[i] for x, i in zip(out2, expected))
-                out3 = list(el.run(make_flow(n, fk)))
+                out3 = L(el.run(make_flow(n, fk)))
                 if out3 != expected:
                     bad = True
                     ctx.violation("Slice.run:container-flow:branch=%s" % rec["branch"],
@@ -91,7 +100,7 @@ def replay_slice(ctx, rec, lena, idx=0):
             try:
                 with warnings.catch_warnings(record=True) as caught:
                     warnings.simplefilter("always")
-                    out4 = list(lena.flow.ISlice(*args).run(iter(range(n))))
+                    out4 = L(lena.flow.ISlice(*args).run(iter(range(n))))
                 if not any(issubclass(w.category, DeprecationWarning) for w in caught):
                     out4 = "no DeprecationWarning"
             except Exception as exc:       # noqa
@@ -266,20 +275,20 @@ def replay_iter(ctx, rec, lena):
             rv = lena.flow.Reverse()
             src = {"iter": iter(range(n)), "list": list(range(n)), "tuple": tuple(range(n)),
                    "gen": (i for i in range(n)), "range": range(n)}[opt]
-            got["Reverse"] = list(rv.run(src))
+            got["Reverse"] = L(rv.run(src))
             if opt == "list" and src != list(range(n)):
                 got["Reverse:input-list-changed"] = src
-            got["Reverse:second-run"] = list(rv.run(iter(range(n))))
+            got["Reverse:second-run"] = L(rv.run(iter(range(n))))
             # two runs of one element alive at the same time (an element used in two branches or
             # pipelines): each run has its own buffer
             g1, g2 = rv.run(iter(range(n))), rv.run(iter(range(100, 100 + n + 1)))
             first = list(itertools.islice(g1, 1))
-            other = list(g2)
-            got["Reverse:interleaved-runs"] = first + list(g1)
+            other = L(g2)
+            got["Reverse:interleaved-runs"] = first + L(g1)
             if other != list(range(100 + n, 99, -1)):
                 got["Reverse:interleaved-runs"] = {"second generator": other}
             objs = [ODD_VALUES[i % len(ODD_VALUES)] for i in range(n)]
-            o = list(rv.run(iter(objs)))
+            o = L(rv.run(iter(objs)))
             if len(o) != n or any(x is not y for x, y in zip(o, reversed(objs))):
                 got["Reverse:odd-values"] = repr(o)
         elif kind == "chain":
@@ -293,21 +302,21 @@ def replay_iter(ctx, rec, lena):
 
                 def pairs(vals):
                     return [(flat[k], v) for k, v in enumerate(vals)] if len(vals) == len(flat) else vals
-                got["Chain(range)"] = pairs(list(ch()))
-                got["Chain(range):second-call"] = pairs(list(ch()))
+                got["Chain(range)"] = pairs(L(ch()))
+                got["Chain(range):second-call"] = pairs(L(ch()))
             else:
                 ch = lena.flow.Chain(*its)
-                got["Chain"] = list(ch())
+                got["Chain"] = L(ch())
                 if reiterable:
                     # the element is a Source: every call generates the chain of its (re-iterable) arguments anew
-                    got["Chain:second-call"] = list(ch())
+                    got["Chain:second-call"] = L(ch())
                     g1, g2 = ch(), ch()
-                    inter = [list(itertools.islice(g1, 1)), list(g2), list(g1)]
+                    inter = [list(itertools.islice(g1, 1)), L(g2), L(g1)]
                     got["Chain:interleaved-calls:first"] = inter[0] + inter[2]
                     got["Chain:interleaved-calls:second"] = inter[1]
             if opt == "3list":
                 objs = [[ODD_VALUES[(i + j) % len(ODD_VALUES)] for j in range(m)] for i, m in enumerate(lens)]
-                o = list(lena.flow.Chain(*objs)())
+                o = L(lena.flow.Chain(*objs)())
                 flat = [x for l in objs for x in l]
                 if len(o) != len(flat) or any(x is not y for x, y in zip(o, flat)):
                     got["Chain:odd-values"] = repr(o)
@@ -339,20 +348,20 @@ def replay_iter(ctx, rec, lena):
             name = "RunningChunkBy(%s)" % opt
             exp = [list(w) for w in exp]
             rc = lena.flow.RunningChunkBy(p1, **kwargs)
-            l = list(rc.run(iter(range(n))))
+            l = L(rc.run(iter(range(n))))
             got[name] = [norm(w) for w in l]
             if not all(type(w) is ctype for w in l):
                 got[name] = "wrong container type: %r" % (l,)
-            got[name + ":second-run"] = [norm(w) for w in rc.run(iter(range(n)))]
+            got[name + ":second-run"] = [norm(w) for w in L(rc.run(iter(range(n))))]
             g1, g2 = rc.run(iter(range(n))), rc.run(iter(range(50, 50 + n)))
             first = list(itertools.islice(g1, 1))
-            list(g2)
-            got[name + ":interleaved-runs"] = [norm(w) for w in first + list(g1)]
+            L(g2)
+            got[name + ":interleaved-runs"] = [norm(w) for w in first + L(g1)]
             # the flow may be a container
-            got[name + ":container-flow"] = [norm(w) for w in rc.run([list(range(n)), tuple(range(n)), range(n)][p1 % 3])]
+            got[name + ":container-flow"] = [norm(w) for w in L(rc.run([list(range(n)), tuple(range(n)), range(n)][p1 % 3]))]
             if opt in ("tuple", "list_it", "nt"):
                 objs = [ODD_VALUES[i % len(ODD_VALUES)] for i in range(n)]
-                o = [list(w) for w in rc.run(iter(objs))]
+                o = [list(w) for w in L(rc.run(iter(objs)))]
                 ref = [objs[j:j + p1] for j in range(0, n - p1 + 1)]
                 if len(o) != len(ref) or any(len(x) != len(y) or any(u is not v for u, v in zip(x, y)) for x, y in zip(o, ref)):
                     got[name + ":odd-values"] = repr(o)
@@ -405,7 +414,7 @@ def bad_steps(ctx, lena):
                     ctx.violation("Slice.__init__:integral-float-step:%s" % exc_name(exc), {"args": [a, b, step]})
                     continue
                 try:
-                    out = list(el.run(iter(range(9))))
+                    out = L(el.run(iter(range(9))))
                 except Exception as exc:    # noqa
                     out = "raised " + exc_name(exc)
                 if out != list(range(9))[a:b:int(step)]:
@@ -433,19 +442,26 @@ def run(ctx):
     res = tlcpar.run_jobs(ctx, jobs)
     recs, recs2, recs3 = res[3], res[4], res[5]
     # ---- spec -> code: every terminal state of the bounded model replayed on the real elements
+    def guarded(what, fn, *args):
+        # a broken element may also loop without yielding: every record is bounded by an alarm
+        try:
+            with deadline(20):
+                fn(*args)
+        except Watchdog:
+            ctx.violation("%s:does-not-terminate" % what, {"scenario": args[1]})
     for i, rec in enumerate(recs):
-        replay_slice(ctx, rec, lena, i)
+        guarded("Slice", replay_slice, ctx, rec, lena, i)
         ctx.case(["slice", rec["a"], rec["b"], rec["s"], rec["n"]], nontrivial=rec["n"] > 0)
     ctx.sample({"spec_behaviour": recs[len(recs) // 2]})
     opts = collections.Counter()
     for rec in recs2:
         opts[(rec["kind"], rec["opt"])] += 1
-        replay_iter(ctx, rec, lena)
+        guarded(rec["kind"], replay_iter, ctx, rec, lena)
         ctx.case(["iter", rec["kind"], rec["p1"], rec["p2"], rec["n"], rec["opt"]], nontrivial=rec["n"] > 0)
     ctx.extra["iterator_variants"] = len(opts)
     ctx.sample({"spec_behaviour": recs2[len(recs2) // 3]})
     for rec in recs3:
-        replay_use(ctx, rec, lena)
+        guarded("Slice:interleaved-use", replay_use, ctx, rec, lena)
     ctx.sample({"spec_behaviour_repeated_use": recs3[len(recs3) // 2]})
     bad_steps(ctx, lena)
     # ---- code -> spec: recorded runs beyond the exhaustive bounds, validated by Trace_Slice
@@ -481,7 +497,7 @@ def run(ctx):
                               "filled": sink.group, "stop": stop})
                 continue
         try:
-            out = list(lena.flow.Slice(*args).run(make_flow(n, rnd.choice(FLOW_KINDS + ("iter",)))))
+            out = L(lena.flow.Slice(*args).run(make_flow(n, rnd.choice(FLOW_KINDS + ("iter",)))))
         except Exception as exc:     # noqa
             ctx.violation("Slice.run:random:raised:" + exc_name(exc), {"args": repr(args), "n": n})
             continue
